@@ -88,6 +88,8 @@ def show(t, depth=0):
         return 'post#%s(%s)' % (t[1], show(t[2], d))
     if k == 'undef':
         return 'undef_%s' % (t[1],)
+    if k == 'loopvar':
+        return 'loop%s_%s' % (t[1], t[2])
     if k == 'closure':
         return 'closure<%s>' % t[1].split('::')[-1]
     if k == 'index':
@@ -236,8 +238,10 @@ class Path:
 
 
 class SymEx:
-    def __init__(self, body, max_visits=2, max_paths=4000, follow_diverge=False):
+    def __init__(self, body, max_visits=2, max_paths=4000, follow_diverge=False, havoc_loops=False):
         self.body = body
+        self.havoc_loops = havoc_loops
+        self.loops = find_loops(body) if havoc_loops else {}
         self.max_visits = max_visits
         self.max_paths = max_paths
         self.follow_diverge = follow_diverge
@@ -259,6 +263,8 @@ class SymEx:
                     root, path = ('ptr', t), ()
             elif isinstance(e, dict) and 'n' in e:
                 nm = e['n'] if variant is None else '%s.%s' % (variant, e['n'])
+                if (e.get('adt') or '').startswith('closure:'):
+                    nm = '^' + nm
                 variant = None
                 path = path + (nm,)
             elif isinstance(e, dict) and 'index' in e:
@@ -310,7 +316,7 @@ class SymEx:
                 return ('const', 1 - a[1])
             return ('un', rv['op'], a)
         if k == 'cast':
-            return ('cast', rv['kind'], self.operand(st, rv['op']), rv['ty'])
+            return ('cast', rv['kind'], self.operand(st, rv['op']), rv['ty'], rv.get('from_ty'))
         if k == 'discr':
             t = self.read_place(st, rv['place'])
             return ('discr', t)
@@ -338,6 +344,19 @@ class SymEx:
         while True:
             if len(self.paths) > self.max_paths:
                 raise TooManyPaths(body.defp)
+            if self.havoc_loops and bb in self.loops:
+                if st.visits[bb] >= 1:
+                    # back edge: the generic iteration ends here (its events still count)
+                    self.paths.append(Path(st, 'backedge', None))
+                    return
+                info = self.loops[bb]
+                for l in info['locals']:
+                    for k in [k for k in st.mem if k[0] == ('local', l)]:
+                        del st.mem[k]
+                    st.mem[(('local', l), ())] = ('loopvar', bb, l)
+                if info['heap']:
+                    for k in [k for k in st.mem if k[0][0] != 'local']:
+                        st.mem[k] = ('loopvar', bb, show_lv(k))
             st.visits[bb] += 1
             st.blocks.append(bb)
             blk = body.blocks[bb]
@@ -433,8 +452,56 @@ class SymEx:
                 return
             b2 = nxt[0]
             if st.visits[b2] >= self.max_visits:
+                self.paths.append(Path(st, 'cut', None))
                 return
             bb = b2
+
+
+def find_loops(body):
+    """loop head -> {'blocks', 'locals' assigned (or mutably borrowed) inside, 'heap' written?}"""
+    dom = body.dominators()
+    succ = body.normal_succ()
+    preds = body.preds()
+    loops = {}
+    for u in dom:
+        for v in succ[u]:
+            if v in dom[u]:     # back edge u -> v
+                blocks = {v, u}
+                st = [u]
+                while st:
+                    x = st.pop()
+                    if x == v:
+                        continue
+                    for p in preds[x]:
+                        if p not in blocks and p in dom:
+                            blocks.add(p)
+                            st.append(p)
+                info = loops.setdefault(v, {'blocks': set(), 'locals': set(), 'heap': False})
+                info['blocks'] |= blocks
+    for v, info in loops.items():
+        for bb in info['blocks']:
+            blk = body.blocks[bb]
+            for s in blk['stmts']:
+                if s['k'] == 'assign':
+                    if s['lhs']['p'] and s['lhs']['p'][0] == 'deref':
+                        info['heap'] = True
+                    else:
+                        info['locals'].add(s['lhs']['l'])
+                    rv = s['rv']
+                    if rv['k'] == 'ref' and rv['mut']:
+                        if rv['place']['p'] and rv['place']['p'][0] == 'deref':
+                            info['heap'] = True
+                        else:
+                            info['locals'].add(rv['place']['l'])
+            t = blk['term']
+            if t['k'] == 'call':
+                if t.get('dest'):
+                    info['locals'].add(t['dest']['l'])
+                for a in t['args']:
+                    p = op_place(a)
+                    if p is not None and body.local_ty(p['l']).startswith('&mut ') and 1 <= p['l'] <= body.arg_count:
+                        info['heap'] = True
+    return loops
 
 
 def fold_bin(op, a, b):
